@@ -202,6 +202,7 @@ func Profile(prop string, rng *prng.Rand, idx uint64) *GenCfg {
 			"Point.ExtendedCoordinates", "Scalar.Bytes", "Element.Bytes"} {
 			c.W[n] = 3 + rng.Intn(4)
 		}
+		c.PFlood = 3e-4
 		c.PScribble = pickF(rng, 0.1, 0.2)
 		c.PProbe = pickF(rng, 0.1, 0.2)
 		c.PImport = 0.05
